@@ -56,6 +56,24 @@ CLAIMS = {
         "not decided: the body of the Fortran module (no Fortran front end: binding table only)."),
   note=NOTE_COMMON + "Oracle: the layers against each other and the doc comments of IPhreeqc.h (parsed by clang). Frozen tables: "
        "c13_api_holes.json, c13_fortran_shifts.json, c13_store.json. Known finding: get_sel_out_string_on ignores its parameter."),
+ "C10": dict(
+  technique="writer/reader table agreement (dump_raw option words resolved with find_option's own semantics against vopts and read_raw's switch) + field pairing + field-coverage census + Serialize/Deserialize stream symmetry + keyword/kind dispatch coherence",
+  text=("Static structural analysis of the 20 RAW-format classes, the 20 binary-stream classes and the DUMP / *_RAW / *_MODIFY drivers, rebuilt "
+        "from the current source on every run; the writer is the oracle for the reader and vice versa. Decided: (a) every option word "
+        "dump_raw writes resolves - with the matching semantics read from CParser::find_option itself - to a case of read_raw that stores into "
+        "the object; (b) the member streamed after an option is the member that case stores the parsed value into (constant array indices "
+        "included); (c) case labels lie inside the vopts table; (d) every data member of each class is written by dump_raw (or its parent) "
+        "and carried by Serialize, or is exempt with a reason whose supporting fact is re-checked (never read / recomputed by named builders "
+        "/ definition flag); (e) Serialize and Deserialize are mirror images per channel (count, order, loop depth, conditionality, member); "
+        "(f) the keyword a class writes is dispatched by read_input to that class, that kind's store and that kind's Rxn_new set, MODIFY "
+        "likewise; dump_ostream has exactly one coherent block per kind and StorageBinList::GetAllItems / Read reach every kind once. These "
+        "are necessary conditions of the property (a written-but-not-read, crossed, dropped or unreachable member loses state on restore - "
+        "three such defects were replayed against the library and fixed). NOT decided: textual fixed point of dump-read-dump (number "
+        "formatting) and equality of follow-up results beyond field agreement."),
+  note=NOTE_COMMON + "Frozen tables: c10_undumped.json, c10_unserialized.json (each row re-validated: member exists; 'never-read' rows: no reader outside "
+       "the class; 'derived' rows: the named builders write the member). The writer model follows locals through their initialisers and const "
+       "getters one level deep; the reader model distinguishes stored values from error-branch defaults and follows locals into members. "
+       "Thorough tier adds the storage-bin bulk-copy drivers (C10.bulk)."),
  "C12": dict(
   technique="Butcher-tableau extraction by reaching-definition dataflow on the CFG of rk_kinetics + exact rational order conditions (rooted trees to order 5) + step-bookkeeping shape",
   text=("Static analysis of Phreeqc::rk_kinetics only (the explicit integrator): the stage formulas Set_moles(sum a_sj*k_j), the stage "
